@@ -148,7 +148,7 @@ Section MacCrypto.
         else
           let drf := N.shiftr (b 0%nat) 4 in let pwf := N.land (b 0%nat) 0x0f in
           let dr : option N := if drf =? 15 then Some (cf_data_rate cf)
-                               else match get_datarate r drf with Some _ => Some drf | None => None end in
+                               else match uplink_dr rg drf with Some _ => Some drf | None => None end in
           let pw : option (option N) := if pwf =? 15 then Some (cf_tx_power cf)
                                         else match tx_power_adjust r pwf with Some x => Some (Some x) | None => None end in
           match region_mask_validate rg msk dr with
@@ -343,11 +343,11 @@ Section MacCrypto.
     | Panic => Panic | OutOfDraws => OutOfDraws
     end.
 
-  (* TxConfig::adjust_power: i8 arithmetic (Panic on overflow), max_power as i8 wraps *)
+  (* TxConfig::adjust_power: saturating i8 arithmetic; max_power above 127 counts as 127 *)
   Definition as_i8 (n : N) : Z := let z := Z.of_N (n mod 256) in if (127 <? z)%Z then (z - 256)%Z else z.
   Definition adjust_power (pw : Z) (max_power : N) (gain : Z) : outcome Z :=
-    let p := (pw - gain)%Z in
-    if ((p <? -128) || (127 <? p))%Z then Panic else Val (Z.min p (as_i8 max_power)).
+    let p := Z.max (-128) (Z.min 127 (pw - gain)) in        (* saturating_sub *)
+    Val (Z.min p (if 127 <? max_power then 127%Z else Z.of_N max_power)).
 
   Definition create_tx_config (rg : region) (datarate : N) (join : bool) (draws : list N)
     : outcome (Z * rf_config * tx_channel * region * list N) :=
@@ -408,7 +408,7 @@ Section MacCrypto.
         let m1 := with_state m (Joined s') in
         match create_tx_config (m_region m1) (cf_data_rate (m_cfg m1)) false draws with
         | Val (pw0, rf, tc, rg', rest') =>
-          match adjust_power pw0 (match cf_tx_power (m_cfg m1) with Some p => p | None => m_max_power m1 end) (m_gain m1) with
+          match adjust_power pw0 (N.min (match cf_tx_power (m_cfg m1) with Some p => p | None => m_max_power m1 end) (m_max_power m1)) (m_gain m1) with
           | Val pw =>
             let m2 := with_region m1 rg' in
             match rx_windows m2 tc with
